@@ -68,6 +68,10 @@ def legs(tier, for_replay=False):
         Leg('programs_N2', fn_programs, p2, chunk=24 if quick else 48, src_states=len(p2), timeout=3000,
             bound='N=2: all %d programs of length <= %d over 12 letters x all configurations x both orders' % (len(p2), k2)),
     ]
+    p4 = circ.programs('py', 4, 2 if quick else 3)
+    out.append(Leg('programs_N4', fn_programs, p4, chunk=4 if quick else 16, src_states=len(p4), timeout=3000,
+                   bound='N=4: all %d programs of length <= %d over 10 letters (two 2-qubit gates on interleaved wires (0,2),(1,3) can share a layer; '
+                         '4-qubit global generator) x all configurations x (1024-element group list + 7 states)' % (len(p4), 2 if quick else 3)))
     gs = [it for N in (1, 2, 3) for it in circ.gate_specs('py', N, tier)]
     out.append(Leg('gates', fn_gates, gs, chunk=16 if quick else 64, timeout=3000,
                    bound='N<=3: named gates and C(k) on every wire, generator gates (all strings, both signs), clifford_rotation_gate '
